@@ -460,3 +460,8 @@ for nm, tier, kw in [
 ]:
     SRAMS[nm] = (tier, kw)
     REGISTRY[nm] = (tier, (lambda nm=nm, kw=kw: CsrSramHarness(nm, **kw)))
+
+
+# CSRBankArray + InterconnectShared (checks/c12_array.py)
+from checks import c12_array as _arr  # noqa: E402
+REGISTRY.update(_arr.factories())
